@@ -270,6 +270,8 @@ def _to_sarr(obj):
             return o
         if isinstance(o, (complex, np.complexfloating)):
             return complex(o)
+        if isinstance(o, (float, np.floating)) and not math.isfinite(float(o)):
+            return float(o)  # +-inf / nan stay concrete floats inside the object array
         return sym.sym_const(o)
 
     nested = conv(obj)
